@@ -373,6 +373,12 @@ def cases(draw):
                 return c
             else:
                 c.update(value=draw(st.sampled_from([["int", 5], ["bytes", "abc"], ["float", 1.5], ["bool", True], ["list", [["str", "a"]]]])), why="wrong-type")
+    elif name == "OneOf" and op == "bad-value" and draw(st.integers(0, 2)) == 0:
+        toks = draw(st.sampled_from([["CHECKING", "SAVINGS"], ["Y2", "X"], ["A", "B", "C"]]))
+        c["type"] = ["OneOf", toks]
+        # values that are not tokens - falsy ones included (an empty string is no token either)
+        c.update(value=draw(st.sampled_from([["str", ""], ["int", 0], ["bool", False], ["float", 0.0], ["dec", "0"], ["bytes", ""], ["list", []]])), why="falsy-non-member")
+        c["required"] = False
     elif name == "OneOf":
         ints = draw(st.integers(0, 5)) == 0
         if ints:
